@@ -204,6 +204,10 @@ func (w *World) viol(prop, key, format string, a ...any) bool {
 	if prop == w.prop {
 		return w.t.Violation(key, format, a...)
 	}
+	if w.prop == "C06" && (prop == "C01" || prop == "C05") {
+		// what reaches the final directory around a crash is C06's business too
+		return w.t.Violation("around-crash:"+key, format, a...)
+	}
 	w.others[prop+"/"+key]++
 	return true
 }
